@@ -475,7 +475,7 @@ func runC10(w *mon.W) {
 
 	// ---------------- (2) constructor options
 	cmd := command.MustParse("/a")
-	nc := w.Share(w.Pick(2000, 40000))
+	nc := w.Share(w.Pick(6000, 40000))
 	for it := 0; it < nc; it++ {
 		iss, aud, sub := gen.Ed(it).DID, gen.Ed(it+1).DID, gen.Ed(it+2).DID
 		undef := it % 7
